@@ -112,9 +112,10 @@ func (m apiJSConv) Write(ctx context.Context, p *thrift.BinaryProtocol, field *t
 	var val = rt.Mem2Str(in)
 	t := field.Type().Type()
 	if len(in) >= 2 && in[0] == '"' && in[len(in)-1] == '"' {
-		val, err = strconv.Unquote(val)
-		if err != nil {
-			return err
+		// NOTICE: in is a JSON string literal
+		var ok bool
+		if val, ok = json.Unquote(val); !ok {
+			return strconv.ErrSyntax
 		}
 		if t != thrift.STRING && val == "" {
 			val = "0"
